@@ -208,11 +208,17 @@ class BlockParser:
 		index = begin
 		other_closes: list[str] = []
 		while index < len(text):
+			# 引用符の内側は括弧・別種の引用符を無視(エスケープ文字は次の文字ごとスキップ)
+			in_quote = len(other_closes) > 0 and other_closes[-1] in '"\''
+			if in_quote and text[index] == '\\':
+				index += 2
+				continue
+
 			if text[index] in other_tokens:
 				other_index = other_tokens.find(text[index])
 				if len(other_closes) > 0 and other_closes[-1] == other_tokens[other_index]:
 					other_closes.pop()
-				elif other_index % 2 == 0:
+				elif other_index % 2 == 0 and not in_quote:
 					other_closes.append(other_tokens[other_index + 1])
 
 			index += 1
@@ -322,8 +328,17 @@ class BlockParser:
 		index = 0
 		begin = 0
 		stack = 0
+		quote = ''
 		while index < len(text):
-			if text[index] == brackets[0] and stack == 0:
+			if quote:
+				# 引用符の内側の括弧は無視
+				if text[index] == '\\':
+					index += 1
+				elif text[index] == quote:
+					quote = ''
+			elif text[index] in '"\'' and text[index] not in brackets:
+				quote = text[index]
+			elif text[index] == brackets[0] and stack == 0:
 				begin = index + 1
 				stack += 1
 			elif text[index] == brackets[0] and stack > 0:
